@@ -485,6 +485,127 @@ def make_decimal():
     return h
 
 
+# --------------------------------------------------------------- e2names
+
+E2NAMES = {
+    # mutator: (module, class, language of the token the name is built from)
+    'BVReduceBW': ('mutators_bv', 'symbol'),
+    # first operand of str.contains in a well-sorted term: a symbol or a
+    # string literal
+    'StringContainsToConcat': ('mutators_strings', 'symstr'),
+    'IntroduceFreshVariable': ('mutators_smtlib', 'symbol'),
+}
+
+
+def _e2_script(cls, name):
+    if cls == 'BVReduceBW':
+        return (f'(declare-const {name} (_ BitVec 8))'
+                f'(assert (= {name} #x01))')
+    if cls == 'StringContainsToConcat':
+        decl = '' if name[:1] in '"#:0123456789' else \
+            f'(declare-const {name} String)'
+        return (f'{decl}(declare-const t String)'
+                f'(assert (str.contains {name} t))')
+    return (f'(declare-const {name} Int)(assert (> (+ {name} 1) 2))')
+
+
+def e2names_native(cls, name):
+    """The real mutator on a script in which the token ``name`` stands where
+    the mutator takes its name from."""
+    from ddsmt import nodeio
+    exprs = list(nodeio.parse_smtlib(_e2_script(cls, name)))
+    return run_mutators(exprs, all_mutators([cls]))
+
+
+def run_e2names(cls):
+    """E2: the name construction of the mutator, translated from its current
+    source to z3 strings (vlib/py2smt_str.py); for every token text of any
+    length the declared name must be a symbol."""
+    import importlib
+    import time
+    import z3
+    from vlib import py2smt_str as T
+    from ddsmt import smtlib
+    t0 = time.time()
+    modname, lang = E2NAMES[cls]
+    mod = importlib.import_module('ddsmt.' + modname)
+    L = T.languages()
+    name = z3.String('name')
+    digits = z3.String('node_id')
+    env = {'node': T.Cmd([T.Opaque('head'), T.Leaf(name), T.Opaque('c2'),
+                          T.Opaque('c3')]),
+           'input_': T.Opaque('input'), 'self': T.Opaque('self'),
+           '__node_id__': T.NodeId(digits)}
+    base = {'status': 'UNKNOWN', 'cex': None, 'paths': 0, 'paths_ok': 0,
+            'samples': [], 'solver_checks': 0, 'solver_seconds': 0.0}
+    try:
+        recs = T.name_constructions(getattr(mod, cls).global_mutations,
+                                    smtlib, env)
+    except T.Unsupported as e:
+        return dict(base, engine_error=f'outside the translatable subset: {e}',
+                    wall_s=round(time.time() - t0, 2))
+    if not recs:
+        return dict(base, status='VACUOUS',
+                    engine_error='no declaration found in the source',
+                    wall_s=round(time.time() - t0, 2))
+    nq = 0
+    stime = 0.0
+    reach = 0
+    bad = None
+    unknown = []
+    samples = []
+    queries = []
+    for pc, term in recs:
+        for label, member in T.cases(name, lang):
+            pre = z3.And(member, z3.InRe(digits, L['digits']))
+            queries.append((pc, term, pre, 'reach', z3.BoolVal(True)))
+            queries.append((pc, term, pre, 'symbol',
+                            z3.Not(z3.InRe(term, L['symbol']))))
+    for pc, term, pre, what, goal in queries:
+        if True:
+            sol = z3.Solver()
+            sol.set('timeout', 60000)
+            sol.add(pre, pc, goal)
+            tq = time.time()
+            r = str(sol.check())
+            stime += time.time() - tq
+            nq += 1
+            if what == 'reach':
+                if r == 'sat':
+                    reach += 1
+                    m = sol.model()
+                    if len(samples) < 3:
+                        samples.append({
+                            'token': m.eval(name, True).as_string(),
+                            'declared_name': m.eval(term, True).as_string()})
+                elif r != 'unsat':
+                    unknown.append(f'reachability: {r}')
+                continue
+            if r == 'sat' and bad is None:
+                m = sol.model()
+                tok = m.eval(name, True).as_string()
+                bad = ({'token': tok, 'mutator': cls},
+                       f'{cls}: for the token {tok!r} the declared name is '
+                       f'{m.eval(term, True).as_string()!r}, which is not a '
+                       f'symbol')
+            elif r not in ('sat', 'unsat'):
+                unknown.append(f'symbol query: {r}')
+    status = 'VIOLATED' if bad else ('UNKNOWN' if unknown else
+                                     ('CONFIRMED' if reach else 'VACUOUS'))
+    return {'status': status, 'cex': bad[0] if bad else None,
+            'exc': {'type': 'Violation', 'msg': bad[1]} if bad else None,
+            'paths': len(recs), 'paths_ok': len(recs) - len(unknown),
+            'samples': samples, 'solver_checks': nq,
+            'solver_seconds': round(stime, 2),
+            'queries': {'name_constructions_in_source': len(recs),
+                        'reachable': reach, 'undecided': unknown[:3]},
+            'engine_error': '; '.join(unknown[:2]) or None,
+            'wall_s': round(time.time() - t0, 2),
+            'note': 'token texts of any length (characters of the BMP); the '
+                    'sort tables are unconstrained (every name-in-use guard '
+                    'may or may not fire)'}
+
+
 # -------------------------------------------------------------- plumbing
 
 def _setup():
@@ -515,6 +636,10 @@ def partitions(tier):
     for k in range(len(CORPUS)):
         parts.append({'name': f'corpus_{k}', 'kind': 'native',
                       'run': (lambda k=k: run_corpus(k)), 'budget_s': 300})
+    for cls in E2NAMES:
+        parts.append({'name': f'e2names_{cls}', 'kind': 'E2',
+                      'run': (lambda cls=cls: run_e2names(cls)),
+                      'budget_s': 400})
     from harness import c16
     names = list(c16.FAMS)
     nch = 16
@@ -544,6 +669,8 @@ def replay(part, cex):
         if part.startswith('corpus'):
             r = run_corpus(int(part.split('_')[1]))
             return r['exc']['msg'] if r['exc'] else None
+        if part.startswith('e2names'):
+            return e2names_native(cex['mutator'], cex['token'])
         if part.startswith('typed'):
             r = run_typed([cex['family']], 'thorough',
                           (cex['family'], list(cex['nums'])))
